@@ -118,6 +118,17 @@ CLAIMED['C07'] = (
     'string / bool parameters out of scope; pipeline level is sampled in the quick tier (DESIGN §5)',
     'Lean 4 proof over an IEEE-aware model + regenerated declaration table (decide +kernel) + exhaustive unit-level differential')
 
+CLAIMED['C12'] = (
+    'Lean theorems over a character-level model of read_input_file, for every file: any permutation of entries with distinct names (and any '
+    'reordering that keeps duplicates in their relative order) yields the same dictionary, the last occurrence of a name governs, blank lines and '
+    '# / * / -- comment lines (also indented) carry nothing and may be inserted anywhere, blanks and tabs around name, comma and value are '
+    'irrelevant, a trailing comment does not change name and value, CRLF / stray blanks at line ends are irrelevant, client overrides appended '
+    'after the base file govern; tied to the code by an exact differential of the real tokenizer on generated decorated files and by whole-run '
+    'variants (permuted / decorated / duplicate-injected) of the same parameter set.',
+    'kernel + propext/Classical.choice/Quot.sound; CPython strip/split/universal newlines modelled for ASCII and differential-tested; non-ASCII '
+    'whitespace only differential; that modules read the dictionary in their own order is tested by the whole-run variants (DESIGN §5)',
+    'Lean 4 proof over a character-level tokenizer model + exact differential + whole-run variants')
+
 PENDING_REASON = 'check not built yet in this commit (work in progress; see DESIGN.md §9 for the order)'
 
 
